@@ -525,6 +525,19 @@ pub fn verify(cx: &mut Ctx, op: &Value, it: &mut Interner) -> Value {
                     "cur" => roots.push(tr.map(|v| fr_le_bytes(&v)).unwrap_or(vec![0; 32])),
                     "msg" => roots.push(fr_le_bytes(&m.root_at_proof)),
                     "zero" => roots.push(vec![0; 32]),
+                    x if x.starts_with("straddle") => {
+                        // two records that do NOT contain the message's root, but whose concatenation contains its 32
+                        // bytes across the record boundary (shifted by k bytes)
+                        let kk: usize = x["straddle".len()..].parse().unwrap();
+                        let rt = fr_le_bytes(&m.root_at_proof);
+                        let mut r1 = vec![0xA5u8; kk];
+                        r1.extend_from_slice(&rt[..32 - kk]);
+                        let mut r2 = rt[32 - kk..].to_vec();
+                        r2.extend(std::iter::repeat(0x5Au8).take(32 - kk));
+                        // (records must be canonical field encodings or not: the verifier is only asked about membership)
+                        roots.push(r1);
+                        roots.push(r2);
+                    }
                     _ => roots.push(fr_le_bytes(&fv(&json!({"k": "rnd", "s": 1000 + k as u64})))),
                 }
             }
